@@ -35,6 +35,7 @@ type Contract struct {
 	Assumed   bool
 	MayPanic  bool
 	Wrapping  bool
+	GhostSets [][2]Clause // ghost assignments performed at return
 	Allocates bool
 	NonblockingTypes map[string]bool // optional: only sends of these element types are checked
 	Nonblocking bool // every channel send in the function must find room in the buffer (event loops must never block on a waiter)
@@ -94,7 +95,7 @@ var pkgClauseRe = regexp.MustCompile(`^package\s+(\w+)`)
 
 var clauseKeywords = map[string]bool{"requires": true, "ensures": true, "modifies": true, "pure": true, "assumed": true,
 	"functype": true, "loop": true, "results": true, "params": true, "maypanic": true, "wrapping": true, "assert": true, "use": true, "allocates": true,
-	"nonblocking": true, "before": true, "dead": true, "func": true, "iface": true, "lemma": true, "import": true, "chanvalue": true, "initfact": true, "axiom": true, "ghostfield": true, "uninterp": true, "const": true}
+	"nonblocking": true, "ghostset": true, "before": true, "dead": true, "func": true, "iface": true, "lemma": true, "import": true, "chanvalue": true, "initfact": true, "axiom": true, "ghostfield": true, "uninterp": true, "const": true}
 
 // loadContractFile parses one file. defaultPkg is used for keys without package qualifier
 // (the Go package name of the file for in-repo contract files).
@@ -360,6 +361,21 @@ func (ct *ContractTable) loadContractFile(path string) error {
 				}
 			case "wrapping":
 				cur.Wrapping = true
+			case "ghostset":
+				// ghostset <ghost location> = <expr>: performed at every return, before the postconditions
+				eq := strings.Index(rest, " = ")
+				if eq < 0 {
+					return fmt.Errorf("%s:%d: bad ghostset", path, rl.line)
+				}
+				lhs, err := mkClause(strings.TrimSpace(rest[:eq]), rl.line)
+				if err != nil {
+					return err
+				}
+				rhs, err := mkClause(strings.TrimSpace(rest[eq+3:]), rl.line)
+				if err != nil {
+					return err
+				}
+				cur.GhostSets = append(cur.GhostSets, [2]Clause{lhs, rhs})
 			case "allocates":
 				cur.Allocates = true
 			case "results":
